@@ -70,6 +70,8 @@ fn missing_target_class(m: &Model, c: &str, got: &Res, supported: Option<bool>) 
     match got {
         // where the receiving layer implements the setter, "not supported" is the wrong answer
         Res::Err(e) if e.class == ErrClass::NotSupported && supported == Some(true) => Some(("missing-target:want=Err[NotFound]|got=Err(NotSupported)".to_string(), format!("the entry is missing from an existing directory and the stack implements this setter; it answered {}", e.display))),
+        // ... and where it does not implement it, "not supported" is the answer whatever the path
+        Res::Err(e) if e.class == ErrClass::NotFound && supported == Some(false) => Some(("missing-target:want=Err[NotSupported]|got=Err(NotFound)".to_string(), format!("the stack does not implement this setter (it must answer not-supported); it answered {}", e.display))),
         Res::Err(e) if matches!(e.class, ErrClass::NotFound | ErrClass::NotSupported) => None,
         Res::Err(e) if e.io_only => None,
         other => Some((format!("missing-target:want=Err[NotFound|NotSupported]|got={}", other.class()), format!("the entry is missing from an existing directory; the setter answered {}", short(other)))),
